@@ -422,6 +422,14 @@ func (db *MultiBucketBackend) PutObject(
 	input io.Reader, size int64,
 ) (result gofakes3.PutObjectResult, err error) {
 
+	// The body is read (and its length and digest verified by the reader
+	// chain) before the destination is touched, so that a rejected or
+	// aborted upload cannot destroy the object it would have replaced:
+	bts, err := gofakes3.ReadAll(input, size)
+	if err != nil {
+		return result, err
+	}
+
 	err = gofakes3.MergeMetadata(db, bucketName, objectName, meta)
 	if err != nil {
 		return result, err
@@ -448,6 +456,12 @@ func (db *MultiBucketBackend) PutObject(
 		}
 	}
 
+	// Replace rather than truncate: a reader that opened the previous object
+	// before this upload keeps reading the previous bytes.
+	if err := db.bucketFs.Remove(objectFilePath); err != nil && !os.IsNotExist(err) {
+		return result, err
+	}
+
 	f, err := db.bucketFs.Create(objectFilePath)
 	if err != nil {
 		return result, err
@@ -464,7 +478,7 @@ func (db *MultiBucketBackend) PutObject(
 
 	hasher := md5.New()
 	w := io.MultiWriter(f, hasher)
-	if _, err := io.Copy(w, input); err != nil {
+	if _, err := w.Write(bts); err != nil {
 		return result, err
 	}
 
